@@ -107,8 +107,10 @@ def shard_static(args):
     return acc
 
 
-def e2e_requests():
+def e2e_requests(tier='quick'):
     qs = sorted(set(q for q in gen.B16 if 1 <= q <= 2000) | {3, 15, 16, 17, 124, 125, 1967, 1968, 1999, 2000})
+    if tier == 'thorough':
+        qs = list(range(1, 2001))
     for q in qs:
         yield dict(kind='req', fc=1, address=1, count=q)
         if q <= 125:
@@ -227,9 +229,9 @@ def make(kind, line):
 
 
 def shard_e2e(args):
-    kind, = args
+    kind, tier = args
     acc = Acc()
-    for m in e2e_requests():
+    for m in e2e_requests(tier):
         for rk in ('normal', 'exception'):
             run_e2e(acc, kind, m, rk)
     import itertools
@@ -247,15 +249,14 @@ def shard(args):
 
 def run(tier, seed):
     parts = 12
-    shards = [('static', k, parts) for k in range(parts)] + [('e2e', k) for k in ('serial-rtu', 'serial-ascii', 'serial-binary', 'rtu-over-tcp', 'rtu-over-tcp:subclass', 'ascii-over-tcp:subclass')]
+    shards = [('static', k, parts) for k in range(parts)] + [('e2e', k, tier) for k in ('serial-rtu', 'serial-ascii', 'serial-binary', 'rtu-over-tcp', 'rtu-over-tcp:subclass', 'ascii-over-tcp:subclass')]
     acc = par.run_shards(shard, shards)
     return dict(acc=acc, level=LEVEL,
                 coverage=dict(
                     rule='one case = one (request, quantity) prediction compared with the real server reply and with each framer\'s ADU arithmetic, '
                          'or one end-to-end client transaction on a scripted line; non-trivial = distinct (class, reply length) pairs',
                     bounds='every quantity 1..2000 (FC1,2), 1..125 (FC3,4), 1..1968 (FC15), 1..123 (FC16), FC23 read 1..125 x write {1,2,121}, FC5/6, '
-                           'every diagnostic sub-function; RTU/ASCII/binary/TLS; end-to-end on the three serial clients and RTU-over-TCP for ~30 '
-                           'boundary quantities, normal and exception replies'),
+                           'every diagnostic sub-function; RTU/ASCII/binary/TLS; end-to-end on the three serial clients, RTU-over-TCP and two subclassed-framer clients for ' + ('every quantity' if tier == 'thorough' else '~30 boundary quantities') + ', normal and exception replies; all 27 three-transaction histories over {normal, exception, silent} on one client'),
                 assumptions=['the conformant server is the real decode/execute/encode path on a 2004-cell datastore, cross-checked with ref/pdu.response_size',
                              'virtual clock and scripted serial port / socket replace the OS'])
 
